@@ -278,12 +278,13 @@ func runRoundTrip(t *rapid.T, sub string, gpos bool, only int) {
 			break
 		}
 	}
+	// all sequences up to maxLen: 340-1554 sequences (quick), 780-1554 (thorough)
 	maxLen := 4
-	if len(alphabet) > 5 {
+	switch {
+	case len(alphabet) > 5 && !stats.Thorough(), len(alphabet) > 6:
 		maxLen = 3
-	}
-	if stats.Thorough() && len(alphabet) <= 6 {
-		maxLen++
+	case len(alphabet) <= 4 && stats.Thorough():
+		maxLen = 5
 	}
 	nApply, nPanic, err := sameMeaning(lc.ll, l1, makeGdef(fs, lc.core), alphabet, maxLen)
 	if err != nil {
